@@ -81,12 +81,13 @@ func c07Concurrent(e *Env) {
 	sc := newSimConn(e, "c0", drawAddr(t, 3868), drawAddr(t, 40000))
 	mux := diam.NewServeMux()
 	var conn diam.Conn
+	var conns []diam.Conn
 	var lis *SimListener
 	served := t.Chance(1, 3)
 	if served {
 		// server side: the Conn is the one handed to a handler
 		lis = newSimListener(e)
-		got := make(chan diam.Conn, 1)
+		got := make(chan diam.Conn, 4)
 		mux.HandleFunc("ALL", func(c diam.Conn, m *diam.Message) {
 			select {
 			case got <- c:
@@ -96,14 +97,25 @@ func c07Concurrent(e *Env) {
 		srv := &diam.Server{Handler: mux, Dict: simDict()}
 		go srv.Serve(lis)
 		lis.Connect(sc)
-		hello := RefMsg{Cmd: 900, Flags: 0x80, HbH: 1, E2E: 1, AVPs: []RefAVP{{Code: avpSimOctets, Data: []byte("hello")}}}
-		sc.Deliver(hello.Bytes())
-		e.Quiesce()
-		select {
-		case conn = <-got:
-		default:
-			e.Harness("served connection did not reach the handler")
+		// one request, or several: each handler keeps the Conn it was given and its task
+		// writes through that one (answers produced later, by goroutines the handlers left behind)
+		nHello := 1
+		if t.Chance(1, 2) {
+			nHello = t.Range(2, 3)
+			e.Probe("conns-of-several-handler-calls")
 		}
+		for h := 0; h < nHello; h++ {
+			hello := RefMsg{Cmd: 900, Flags: 0x80, HbH: uint32(h + 1), E2E: uint32(h + 1), AVPs: []RefAVP{{Code: avpSimOctets, Data: []byte("hello")}}}
+			sc.Deliver(hello.Bytes())
+			e.Quiesce()
+			select {
+			case c := <-got:
+				conns = append(conns, c)
+			default:
+				e.Harness("served connection did not reach the handler")
+			}
+		}
+		conn = conns[0]
 	} else {
 		var err error
 		conn, err = diam.NewConn(sc, "sim", mux, simDict())
@@ -140,6 +152,10 @@ func c07Concurrent(e *Env) {
 		}
 		tasks[i] = tk
 		go func(tk *wtask) {
+			conn := conn
+			if len(conns) > 1 {
+				conn = conns[tk.idx%len(conns)]
+			}
 			for _, op := range tk.ops {
 				mu.Lock()
 				tk.idle = true
